@@ -221,3 +221,43 @@ Definition send_with_gso_disable (c : cfg) (bufs : list buf) (oracle1 oracle2 : 
   let second := unmerged c (first ++ repeat {| m_data := []; m_cap := 0; m_oob := []; m_gso := []; m_addr := 0 |} (length bufs)) bufs in
   let '(t2, e2) := send_loop (S (length second)) second 0 oracle2 in
   (t1, t2, e2).
+
+(* ------------------------------------------------------------------ *)
+(* Glue: the pooled destination address of Send (udpAddrPool)           *)
+(* ------------------------------------------------------------------ *)
+
+(* ua.IP of a pooled *net.UDPAddr: a backing array of 16 bytes (New: make([]byte, 16))
+   and the current length of the slice (16 after an IPv6 Send, 4 after an IPv4 one) *)
+Record apool := { ap_buf : list N; ap_len : nat }.
+Definition apool_new : apool := {| ap_buf := repeat 0 16; ap_len := 16 |}.
+
+(* copy(dst[:n], src): min(n, len src) bytes *)
+Definition copy_n (n : nat) (buf src : list N) : list N :=
+  let k := Nat.min n (length src) in firstn k src ++ skipn k buf.
+
+(* the address the kernel is given: ua.IP *)
+Definition ap_ip (p : apool) : list N := firstn (ap_len p) (ap_buf p).
+
+(* IPv4 destination: copy(ua.IP, as4[:]); ua.IP = ua.IP[:4] *)
+Definition store4 (p : apool) (a : list N) : apool :=
+  {| ap_buf := copy_n (ap_len p) (ap_buf p) a; ap_len := 4 |}.
+
+(* IPv6 destination as Send has it at /repo HEAD: copy(ua.IP, as16[:]); ua.IP = ua.IP[:16]
+   (the copy is limited by the length the slice was left with) *)
+Definition old_store6 (p : apool) (a : list N) : apool :=
+  {| ap_buf := copy_n (ap_len p) (ap_buf p) a; ap_len := 16 |}.
+
+(* repaired order (notes/C18-fix-dualstack.patch): ua.IP = ua.IP[:16]; copy(ua.IP, as16[:]) *)
+Definition store6 (p : apool) (a : list N) : apool :=
+  {| ap_buf := copy_n 16 (ap_buf p) a; ap_len := 16 |}.
+
+(* a history of Sends on one bind that keep drawing the same pooled object:
+   (true, 16 bytes) = IPv6 destination, (false, 4 bytes) = IPv4 destination;
+   result: the addresses handed to the kernel *)
+Fixpoint addr_history (st6 : apool -> list N -> apool) (p : apool) (h : list (bool * list N)) : list (list N) :=
+  match h with
+  | [] => []
+  | (is6, a) :: r =>
+      let p1 := if is6 then st6 p a else store4 p a in
+      ap_ip p1 :: addr_history st6 p1 r
+  end.
